@@ -8,7 +8,6 @@ thread_local! {
     static ROOT_LP_DISABLED: Cell<bool> = const { Cell::new(false) };
     static FAST_PATH_DISABLED: Cell<bool> = const { Cell::new(false) };
     static AGENDA_SEED: Cell<Option<u64>> = const { Cell::new(None) };
-    static AGENDA_STEP: Cell<u64> = const { Cell::new(0) };
 }
 
 /// Skip the root LP relaxation step of `search_with_timeout_and_memory`.
@@ -19,17 +18,22 @@ pub fn root_lp_disabled() -> bool { ROOT_LP_DISABLED.with(|c| c.get()) }
 pub fn set_fast_path_disabled(v: bool) { FAST_PATH_DISABLED.with(|c| c.set(v)); }
 pub fn fast_path_disabled() -> bool { FAST_PATH_DISABLED.with(|c| c.get()) }
 
-/// When set, `Agenda::pop` removes the element at index `lcg(seed, step) % len` instead of the front.
+/// When set, `Agenda::pop` removes the element at index `lcg(seed + digest(queue)) % len`
+/// instead of the front (a stateless function of the seed and the queue contents).
 pub fn set_agenda_seed(seed: Option<u64>) {
     AGENDA_SEED.with(|c| c.set(seed));
-    AGENDA_STEP.with(|c| c.set(0));
 }
 
-/// Index to pop from a queue of length `len` (> 0); `None` = unperturbed FIFO order.
-pub fn agenda_pick(len: usize) -> Option<usize> {
+/// Index to pop from the queue `q` (non-empty); `None` = unperturbed FIFO order.
+pub fn agenda_pick(q: impl Iterator<Item = usize>) -> Option<usize> {
     let seed = AGENDA_SEED.with(|c| c.get())?;
-    let step = AGENDA_STEP.with(|c| { let s = c.get(); c.set(s + 1); s });
-    // 31-bit LCG step, reproduced by the Coq model (Model/Sched.v)
-    let x = (seed.wrapping_add(step)).wrapping_mul(1103515245).wrapping_add(12345) % 2147483648;
-    Some((x % (len as u64)) as usize)
+    let mut len: u64 = 0;
+    let mut digest: u64 = 0;
+    for (i, p) in q.enumerate() {
+        len += 1;
+        digest = digest.wrapping_add((p as u64 + 1).wrapping_mul(i as u64 + 1));
+    }
+    // 31-bit LCG step, reproduced by the Coq model (Model/Propagate.v lcg_pick)
+    let x = (seed.wrapping_add(digest)).wrapping_mul(1103515245).wrapping_add(12345) % 2147483648;
+    Some((x % len) as usize)
 }
